@@ -126,7 +126,7 @@ func retarget(ln J, from, to string) J {
 }
 
 func streamC02(c *Ctx) {
-	c.Rule = "systematic cells (every leaf form on the indexed field x operand kind incl. nil, Field(f), \"$f\", mixed lists x wrapper Not/And/Or x sort) on a fixed boundary-rich collection with twins {} / {x} / {x,y}; then twin collections holding identical documents with index sets {} / {filter field} / {sort field} / {x,xy or n,n.a} created before, between or after the writes; " +
+	c.Rule = "systematic cells (every leaf form on the indexed field x operand kind incl. nil, Field(f), \"$f\", mixed lists x wrapper Not/And/Or x sort x skip/limit window, FindAll and Count) on a fixed boundary-rich collection with twins {} / {x} / {x,y}; then twin collections holding identical documents with index sets {} / {filter field} / {sort field} / {x,xy or n,n.a} created before, between or after the writes; " +
 		"the same random queries (criteria depth<=3 with nil/field-reference operands, sort, skip, limit), bulk updates and deletes on every twin; each answer checked against the Lean spec (which ignores indexes) and twins compared pairwise; " +
 		"non-trivial = distinct (query, result) with a non-empty result on a twin that has an index"
 	dr := StartDriver(c.DriverBin)
@@ -348,9 +348,22 @@ func c02Cells(c *Ctx, dr *Driver, im *Impl, be string, full bool) bool {
 				if srt != nil {
 					q["sort"] = srt
 				}
+				// a skip/limit window on half of the cells (rotating): a window is counted in matching documents, whatever
+				// the plan's candidates are (entries of documents that lack the field sit under the nil key, ...)
+				opName := "findAll"
+				switch (li + 2*w + si) % 6 {
+				case 1:
+					q["skip"] = 1
+				case 3:
+					q["skip"] = 2
+					q["limit"] = 3
+				case 5:
+					q["skip"] = 1
+					opName = "count"
+				}
 				qid++
 				for ti, t := range twins {
-					ln := retarget(opLine("findAll", J{"q": q}), "U", t)
+					ln := retarget(opLine(opName, J{"q": q}), "U", t)
 					ln["qid"] = qid
 					ln["twin"] = ti
 					lines = append(lines, ln)
@@ -372,7 +385,7 @@ func c02Cells(c *Ctx, dr *Driver, im *Impl, be string, full bool) bool {
 // ---- C03: bulk update / delete over collections of many sizes ----
 
 func streamC03(c *Ctx) {
-	c.Rule = "collections of size 0,1,2,10,100,1100 three-way (impl, model, spec) and of size 2100 (thorough: also 5000, with padding) against the property's own oracle on the implementation (selection = FindAll before the call; each selected document rewritten once on its pre-call value; all others unchanged; invariant oracle, spanning many bbolt pages) with 0-3 indexes; Update/UpdateFunc/Delete with criteria and sorts on the very field being rewritten, skip/limit with a total order, DropCollection + re-create; " +
+	c.Rule = "collections of size 0,1,2,10,100,1100 three-way (impl, model, spec) and of size 2100 (thorough: also 5000, with padding) against the property's own oracle on the implementation (selection = FindAll before the call; each selected document rewritten once on its pre-call value; all others unchanged; invariant oracle, spanning many bbolt pages) with 0-3 indexes; Update/UpdateFunc/Delete with criteria and sorts on the very field being rewritten, skip/limit with a total order, DropCollection + re-create; bulk writes with another client's write committed immediately before their transaction opens (outcome = the two operations in sequence); " +
 		"updater invocations (documents seen, in order) compared with the model, raw key dump compared after every bulk operation; non-trivial = distinct bulk operation that selected at least one and not all documents"
 	dr := StartDriver(c.DriverBin)
 	defer dr.Close()
@@ -393,6 +406,61 @@ func streamC03(c *Ctx) {
 	}
 	dm := Domain{IntsWithin2p53: true, NoNegTimes: true}
 	specOnly := false
+	// another client's write committed immediately before a bulk operation opens its transaction: selecting and
+	// rewriting are ONE atomic step, so the outcome is that of the two operations one after the other
+	for _, be := range backendsAll {
+		im := NewImpl(be, c.Scratch)
+		for r := 0; r < c.N(24, 240); r++ {
+			g := NewGen(c.Rng, dm)
+			lines := []J{opLine("createCollection", J{"coll": hx("il")})}
+			if r%2 == 1 {
+				lines = append(lines, opLine("createIndex", J{"coll": hx("il"), "field": hx("x")}))
+			}
+			docs := []interface{}{}
+			for j := 0; j < 6; j++ {
+				docs = append(docs, encDoc(map[string]interface{}{"_id": fixedId(j + 1), "x": int64(j % 3), "n": int64(0)}))
+			}
+			lines = append(lines, opLine("insert", J{"coll": hx("il"), "docs": docs}))
+			sel := J{"coll": hx("il"), "crit": J{"cmp": []interface{}{[]string{"ge", "le", "eq"}[g.pick(3)], hx("x"), J{"lit": encValue(int64(g.pick(3)))}}}}
+			victim := fixedId(1 + g.pick(6))
+			var il J
+			switch g.pick(5) {
+			case 0: // a selected document leaves (or an unselected one enters) the selection
+				il = opLine("updateById", J{"coll": hx("il"), "id": hx(victim), "upd": J{"setAll": []interface{}{[]interface{}{hx("x"), encValue(int64(g.pick(3)))}}}})
+			case 1: // ... is rewritten in a field the bulk updater reads
+				il = opLine("updateById", J{"coll": hx("il"), "id": hx(victim), "upd": J{"setAll": []interface{}{[]interface{}{hx("n"), encValue(int64(40))}}}})
+			case 2:
+				il = opLine("deleteById", J{"coll": hx("il"), "id": hx(victim)})
+			case 3:
+				il = opLine("insert", J{"coll": hx("il"), "docs": []interface{}{encDoc(map[string]interface{}{"_id": fixedId(50), "x": int64(g.pick(3)), "n": int64(7)})}})
+			default:
+				il = opLine("update", J{"q": J{"coll": hx("il"), "crit": J{"cmp": []interface{}{"eq", hx("x"), J{"lit": encValue(int64(g.pick(3)))}}}}, "upd": J{"setAll": []interface{}{[]interface{}{hx("x"), encValue(int64(g.pick(3)))}}}, "viaUpdate": 1})
+			}
+			var op J
+			switch g.pick(3) {
+			case 0:
+				op = opLine("update", J{"q": sel, "upd": J{"copy": []interface{}{hx("x"), hx("n")}}})
+			case 1:
+				// (through UpdateFunc: the documents the updater is called on are recorded by the updater itself, inside the
+				// operation; the `Update(q, map)` entry point is observed by a FindAll before the call, i.e. before the interloper)
+				op = opLine("update", J{"q": sel, "upd": J{"setAll": []interface{}{[]interface{}{hx("x"), encValue(int64(9))}}}})
+			default:
+				op = opLine("delete", J{"q": sel})
+			}
+			op["interloper"] = il
+			lines = append(lines, op, J{"k": "dump"}, opLine("findAll", J{"q": J{"coll": hx("il")}}), opLine("count", J{"q": J{"coll": hx("il")}}))
+			o := runHistory(dr, im, lines, HistOpts{})
+			recordHistory(c, lines, &o, be)
+			c.Count("interleaved-bulk-write")
+			if o.Index >= 0 {
+				if reportHistoryProblem(c, dr, im, lines, &o, be, HistOpts{}, "interleaved") {
+					im.Destroy()
+					return
+				}
+			}
+		}
+		im.Destroy()
+	}
 	for _, be := range backendsAll {
 		im := NewImpl(be, c.Scratch)
 		for _, size := range sizes {
@@ -564,6 +632,56 @@ func streamC08(c *Ctx) {
 	dm := Domain{IntsWithin2p53: true, NoNegTimes: true}
 	for _, be := range backendsAll {
 		im := NewImpl(be, c.Scratch)
+		{
+			// window cells: an indexed field holding absent / nil / equal / mixed-type values; every kind of criteria on it
+			// (none, = nil, >= nil, <= nil, >= 5, exists, not exists) x sort (none, asc, desc) x skip x limit, on an indexed
+			// and an unindexed twin: the window counts MATCHING documents, whatever entries the index hands to the filter
+			lines := []J{opLine("createCollection", J{"coll": hx("wc0")}), opLine("createCollection", J{"coll": hx("wc1")}), opLine("createIndex", J{"coll": hx("wc1"), "field": hx("k")})}
+			vals := []interface{}{"absent", nil, "absent", int64(5), nil, int64(5), "absent", float64(5), int64(7), "s", nil, "absent", int64(1)}
+			docs := []interface{}{}
+			for i, v := range vals {
+				m := map[string]interface{}{"_id": fixedId(i + 1), "o": int64(i)}
+				if v != "absent" {
+					m["k"] = v
+				}
+				docs = append(docs, encDoc(m))
+			}
+			lines = append(lines, opLine("insert", J{"coll": hx("wc0"), "docs": docs}), opLine("insert", J{"coll": hx("wc1"), "docs": docs}))
+			fk := hx("k")
+			crits := []interface{}{nil, J{"cmp": []interface{}{"eq", fk, J{"lit": nil}}}, J{"cmp": []interface{}{"ge", fk, J{"lit": nil}}}, J{"cmp": []interface{}{"le", fk, J{"lit": nil}}},
+				J{"cmp": []interface{}{"ge", fk, J{"lit": encValue(int64(5))}}}, J{"exists": fk}, J{"not": J{"exists": fk}}, J{"cmp": []interface{}{"eq", fk, J{"lit": encValue(int64(5))}}}}
+			sorts := []interface{}{nil, []interface{}{[]interface{}{fk, 1}}, []interface{}{[]interface{}{fk, -1}}}
+			for ci, cr := range crits {
+				for si, srt := range sorts {
+					for _, sk := range []int{0, 1, 2, 5} {
+						for li, lim := range []int{-1, 0, 1, 3} {
+							if c.Quick() && sk == 0 && lim == -1 {
+								continue // the unwindowed forms are C02's cells
+							}
+							for _, coll := range []string{"wc0", "wc1"} {
+								q := J{"coll": hx(coll), "skip": sk, "limit": lim}
+								if cr != nil {
+									q["crit"] = cr
+								}
+								if srt != nil {
+									q["sort"] = srt
+								}
+								lines = append(lines, opLine([]string{"findAll", "count", "findAll", "exists", "findFirst"}[(ci+si+sk+li)%5], J{"q": q}))
+							}
+						}
+					}
+				}
+			}
+			o := runHistory(dr, im, lines, HistOpts{})
+			recordHistory(c, lines, &o, be)
+			c.Count("window-cells")
+			if o.Index >= 0 {
+				if reportHistoryProblem(c, dr, im, lines, &o, be, HistOpts{}, "window-cells") {
+					im.Destroy()
+					return
+				}
+			}
+		}
 		{
 			// a collection of a few hundred documents (past any small-buffer threshold of a sort or window node):
 			// in-memory and index-served sorts with every kind of window, negative limits other than -1 included
